@@ -288,7 +288,7 @@ func newC16Session() *c16Session {
 						conn.Close()
 					}
 				}()
-				buf := make([]byte, 8192)
+				buf := make([]byte, c16StubRead)
 				for {
 					n, err := conn.Read(buf)
 					sc.mu.Lock()
@@ -387,6 +387,9 @@ type c16Env struct {
 // Only used under the fine-grain scheduler: with a blocked pump the session loop and the service
 // wait for each other on the connection's mutex, which is not a durable block for synctest.
 type c16Hold struct{ from, to, window int }
+
+// c16StubRead is the size of the slice the stub service reads into (a data message can be larger).
+var c16StubRead = 8192
 
 // fgEnter names the calling goroutine for the fine-grain scheduler (no-op in the ordinary build).
 var fgEnter = func(fn, tag string) {}
@@ -582,6 +585,16 @@ func c16Run(c c16Env, name string, vcs []*vconn, order []c16Msg, disconnectAfter
 	c.Outcome(fmt.Sprint(len(stubs)), fmt.Sprint(len(frs)))
 }
 
+func vcs2(lens [][]int, share string) []*vconn {
+	vcs := c16Vconns(len(lens), lens)
+	if share == "remote" {
+		for _, vc := range vcs[1:] {
+			vc.raddr = vcs[0].raddr
+		}
+	}
+	return vcs
+}
+
 func c16Vconns(n int, lens [][]int) []*vconn {
 	var out []*vconn
 	for k := 0; k < n; k++ {
@@ -669,6 +682,13 @@ func runC16(c *core.Ctx) {
 							}
 						}
 						c16Check(c, sc.name, vcs, msgs, -1)
+						if strings.HasPrefix(sc.name, "1 connection") || sc.name == "2 connections" {
+							// the same with a service that reads 7 bytes at a time: a blocked reader is woken
+							// by a message larger than its slice
+							c16StubRead = 7
+							c16Check(c, sc.name+" (service reads 7 bytes at a time)", vcs2(sc.lens, sc.share), msgs, -1)
+							c16StubRead = 8192
+						}
 					})
 					if c.WantSample() && pa == 0 && pb == 1 {
 						c.Sample(map[string]interface{}{"part": "session", "scenario": sc.name, "messages_per_connection": lens, "orders": "all merges"})
